@@ -1,26 +1,202 @@
+// Package c03: consistency proofs verify for every version pair and expose any fork.
 package c03
 
 import (
+	"bytes"
 	"fmt"
 
+	"github.com/bbva/qed/balloon"
+	"github.com/bbva/qed/crypto/hashing"
 	"github.com/bbva/qed/zzverif/models"
 	"github.com/bbva/qed/zzverif/rt"
 )
 
-const N = 4
+const bits = 256
+
+func digest(tag string, k int) hashing.Digest {
+	return models.PrefixedDigest(fmt.Sprintf("%s%d", tag, k), bits/8, byte(k), 0, 0)
+}
+
+func build(n int) *models.Log {
+	l := models.NewLog(bits)
+	for k := 0; k < n; k++ {
+		l.Add(digest("d", k))
+	}
+	return l
+}
+
+func pick() (n, i, j int) {
+	N := rt.Param("N", 4)
+	n = 1 + rt.Choose("n", N)
+	j = rt.Choose("j", n)
+	i = rt.Choose("i", j+1)
+	return
+}
+
+func verify(p *balloon.IncrementalProof, s, e *balloon.Snapshot) (ok bool) {
+	if rt.Try(func() { ok = p.Verify(s, e) }) {
+		return false // a verifier panic counts as rejection here (totality is C12)
+	}
+	return ok
+}
 
 // Complete: every (i,j) incremental proof verifies against snapshots i and j.
 func Complete() {
-	n := 1 + rt.Choose("n", N)
-	rt.Bound("max_events", N)
-	l := models.NewLog(256)
-	for k := 0; k < n; k++ {
-		l.Add(models.PrefixedDigest(fmt.Sprintf("d%d", k), 32, byte(k), 0, 0))
-	}
-	j := rt.Choose("j", n)
-	i := rt.Choose("i", j+1)
+	n, i, j := pick()
+	l := build(n)
 	p, err := l.B.QueryConsistency(uint64(i), uint64(j))
 	rt.Assert(err == nil, "query-ok")
 	ok := p.Verify(l.Snaps[i], l.Snaps[j])
 	rt.Assert(ok, "incremental-verifies")
+	rt.Trace("start", l.Snaps[i].HistoryDigest)
+	rt.Trace("end", l.Snaps[j].HistoryDigest)
+	rt.Cover(i < j, "i<j")
+	rt.Cover(i == j, "i==j")
+}
+
+// Twin must reach its assert(false).
+func Twin() {
+	n, i, j := pick()
+	l := build(n)
+	p, _ := l.B.QueryConsistency(uint64(i), uint64(j))
+	ok := p.Verify(l.Snaps[i], l.Snaps[j])
+	rt.Assert(!ok, "twin")
+}
+
+// RejectDigest: either digest replaced by any other value (free, or another version's) is rejected.
+func RejectDigest() {
+	n, i, j := pick()
+	l := build(n)
+	p, err := l.B.QueryConsistency(uint64(i), uint64(j))
+	rt.Assume(err == nil)
+	which := rt.Choose("which", 2)
+	src := rt.Choose("source", 2)
+	var alt hashing.Digest
+	if src == 0 {
+		alt = rt.Digest("alt")
+	} else {
+		k := rt.Choose("k", n)
+		alt = l.Snaps[k].HistoryDigest
+	}
+	s := *l.Snaps[i]
+	e := *l.Snaps[j]
+	if which == 0 {
+		rt.Assume(!bytes.Equal(alt, s.HistoryDigest))
+		s.HistoryDigest = alt
+	} else {
+		rt.Assume(!bytes.Equal(alt, e.HistoryDigest))
+		e.HistoryDigest = alt
+	}
+	rt.Assert(!verify(p, &s, &e), "altered-digest-rejected")
+}
+
+// RejectFork: the digest of a log that diverged at p <= j (resp. p <= i) is rejected.
+func RejectFork() {
+	n, i, j := pick()
+	l := build(n)
+	pr, err := l.B.QueryConsistency(uint64(i), uint64(j))
+	rt.Assume(err == nil)
+	p := rt.Choose("forkpoint", j+1)
+	l2 := models.NewLog(bits)
+	for k := 0; k < n; k++ {
+		if k < p {
+			l2.Add(l.Digests[k])
+		} else if k == p {
+			d := digest("f", k)
+			rt.Assume(!bytes.Equal(d, l.Digests[k]))
+			l2.Add(d)
+		} else {
+			l2.Add(digest("g", k))
+		}
+	}
+	// end digest from the fork
+	rt.Assert(!verify(pr, l.Snaps[i], l2.Snaps[j]), "forked-end-rejected")
+	if p <= i {
+		rt.Assert(!verify(pr, l2.Snaps[i], l.Snaps[j]), "forked-start-rejected")
+	}
+	// and the fork's own proof does not verify against this log's digests
+	pr2, err2 := l2.B.QueryConsistency(uint64(i), uint64(j))
+	rt.Assume(err2 == nil)
+	rt.Assert(!verify(pr2, l.Snaps[i], l.Snaps[j]), "fork-proof-rejected")
+}
+
+// RejectEntry: altering any single audit-path entry is rejected.
+func RejectEntry() {
+	n, i, j := pick()
+	l := build(n)
+	p, err := l.B.QueryConsistency(uint64(i), uint64(j))
+	rt.Assume(err == nil)
+	m := len(p.AuditPath)
+	if m == 0 {
+		rt.Reach("empty-path")
+		return
+	}
+	t := rt.Choose("entry", m)
+	idx := 0
+	for k, v := range p.AuditPath {
+		if idx == t {
+			alt := rt.Digest("alt")
+			rt.Assume(!bytes.Equal(alt, v))
+			p.AuditPath[k] = alt
+			break
+		}
+		idx++
+	}
+	rt.Assert(!verify(p, l.Snaps[i], l.Snaps[j]), "altered-entry-rejected")
+}
+
+// RejectDrop: removing any single audit-path entry is rejected (panic counts as rejection).
+func RejectDrop() {
+	n, i, j := pick()
+	l := build(n)
+	p, err := l.B.QueryConsistency(uint64(i), uint64(j))
+	rt.Assume(err == nil)
+	m := len(p.AuditPath)
+	if m == 0 {
+		return
+	}
+	t := rt.Choose("entry", m)
+	idx := 0
+	for k := range p.AuditPath {
+		if idx == t {
+			delete(p.AuditPath, k)
+			break
+		}
+		idx++
+	}
+	rt.Assert(!verify(p, l.Snaps[i], l.Snaps[j]), "dropped-entry-rejected")
+}
+
+// RejectVersions: replacing (Start, End) by any other in-range pair is rejected.
+func RejectVersions() {
+	n, i, j := pick()
+	l := build(n)
+	p, err := l.B.QueryConsistency(uint64(i), uint64(j))
+	rt.Assume(err == nil)
+	j2 := rt.Choose("j2", n)
+	i2 := rt.Choose("i2", j2+1)
+	rt.Assume(i2 != i || j2 != j)
+	p.Start, p.End = uint64(i2), uint64(j2)
+	rt.Assert(!verify(p, l.Snaps[i], l.Snaps[j]), "altered-versions-rejected")
+}
+
+// RangeValidation: any 64-bit (start,end) outside start <= end < version is an error and never reaches the tree.
+func RangeValidation() {
+	N := rt.Param("N", 4)
+	n := rt.Choose("n", N+1) // including the empty log
+	l := build(n)
+	start := rt.U64("start")
+	end := rt.U64("end")
+	valid := start <= end && end < uint64(n)
+	var p *balloon.IncrementalProof
+	var err error
+	ok := rt.NoPanic(func() { p, err = l.B.QueryConsistency(start, end) }, "query-consistency-no-panic")
+	if !ok {
+		return
+	}
+	if !valid {
+		rt.Assert(err != nil && p == nil, "invalid-range-is-error")
+	} else {
+		rt.Assert(err == nil && p != nil, "valid-range-ok")
+	}
 }
